@@ -374,6 +374,8 @@ def run(out: common.Outcome, explore: int = 0) -> None:
     common.setup_impl_path()
     ok = common.proof_obligations(out, "C08")
     import tel2puml.events  # noqa: F401
+    import logging
+    logging.disable(logging.CRITICAL)
     cases, n_exh, n_rand = gen_cases(out, explore)
     impl = [run_impl(c) for c in cases]
     # oracle on the implementation's outputs (always)
@@ -412,6 +414,17 @@ def run(out: common.Outcome, explore: int = 0) -> None:
                        "first_disagreements": [{"case": cases[k], "implementation_output": impl[k]} for k in dis[:3]],
                        "coq_failures": coq_fail[:2]}, no_failing_input=True)
 
+    # ---- leg P: the glue around the sequencer (dict of events, root finding, rename on the dict, recursion over child
+    #      id lists, row emission; skipped / error outcome classes) on regular and irregular streamed jobs
+    from . import c08_pipeline
+    pl = c08_pipeline.run_leg(out.seed, 1200 if out.tier == "quick" else 20000, 60 if out.tier == "quick" else 1000) if ok else None
+    if pl and not out.violations and (any(pl["disagreements"].values()) or pl["coq_failures"]):
+        out.violation({"kind": "correspondence-broken",
+                       "relation": "sequence_otel_job_id_streams outcome (rows / exception / skipped job) == V.Otel.Pipeline.sequence_job; "
+                                   "otel_to_pv generator expression == otel_to_pv_model",
+                       "disagreements": {k: v[:5] for k, v in pl["disagreements"].items()}, "first": pl["first"],
+                       "coq_failures": pl["coq_failures"][:2]}, no_failing_input=True)
+
     def nontrivial(c):
         return any(len(nd["kids"]) >= 2 for nd in all_nodes(c["tree"]))
     keys = {repr((c["tree"], c["async"], sorted(c["gmap"].items()), sorted(c["rules"].items()))) for c in cases if nontrivial(c)}
@@ -423,9 +436,11 @@ def run(out: common.Outcome, explore: int = 0) -> None:
                 "stream and child order; non-trivial = some span has >= 2 children; distinct by (tree, mode, maps)",
         "exhaustive_cases": n_exh, "random_cases": n_rand,
         "samples": [{"case": cases[i], "implementation_output": impl[i]} for i in (min(40, len(cases) - 1), len(cases) - 1)],
-        "traces_validated_against_impl": len(cases) - len(coq_fail) * shard,
+        "traces_validated_against_impl": len(cases) - len(coq_fail) * shard + (pl["n_jobs"] + pl["n_streams"] if pl else 0),
         "model_impl_disagreements": len(dis), "pinned_model_v0_disagreements": len(dis0),
         "oracle_rejections": len(oracle_bad),
+        "pipeline_leg": None if not pl else dict(jobs=pl["n_jobs"], streams=pl["n_streams"], outcomes=pl["outcomes"],
+                                                 disagreements={k: len(v) for k, v in pl["disagreements"].items()}),
         "rename_side_condition_false_cases": sum(1 for c in cases if not side_condition(c["rules"])),
         "trusted_base": common.std_trusted_base([
             "Python oracle written from docs/user/sequencer_HOWTO.md is only the failing-input search, not part of the proof",
